@@ -196,11 +196,12 @@ def run_impl(exe, cases, workdir, tag, timeout=1800):
         if len(lines) >= need:
             results.extend(lines[:need])
             break
-        if lines and lines[-1] == "TIMEOUT" and rc == 4:
-            # the driver stopped itself after a case that did not terminate; resume at the next case
+        if lines and ((lines[-1] == "TIMEOUT" and rc == 4) or rc == 5):
+            # the driver printed the case's outcome and stopped itself (a case that did not terminate, or
+            # std::terminate inside the library): resume at the next case
             results.extend(lines)
             skip = len(results)
-            crashes += 40
+            crashes += 40 if rc == 4 else 0
             if crashes > 200:
                 results.extend(["CRASH(giving up)"] * (len(cases) - len(results)))
                 break
